@@ -45,17 +45,27 @@ Record mon := mkMon {
   m_cur : option cur;          (* executor the client may legitimately talk about *)
   m_owes : bool;               (* a non-OK completion was reported; readiness not re-checked since *)
   m_synced : bool;             (* this Run has reached Synchronize *)
-  m_ready : bool }.            (* this Run has checked readiness successfully *)
+  m_ready : bool;              (* this Run has checked readiness successfully *)
+  m_shut : bool }.             (* shutdown began in an earlier event (a cancelled context stays cancelled) *)
 
-Definition mon_init : mon := mkMon None None false false false.
+Definition mon_init : mon := mkMon None None false false false false.
 
-Definition item_begin (m : mon) : mon := mkMon (m_live m) (m_cur m) (m_owes m) false false.
+Definition item_begin (m : mon) : mon := mkMon (m_live m) (m_cur m) (m_owes m) false false (m_shut m).
 
 (* Context of an output: the event it belongs to and the snapshot after it. *)
 Record ctx := mkCtx { k_ev : event; k_obs : obs }.
 
+(* The context was cancelled by the time this Run built its request: before
+   the Run began, or during it (while CheckReadiness ran / while it slept in
+   the select), i.e. before the second reading of ctx.Err(). *)
 Definition ctx_shutdown (c : ctx) : bool :=
+  match k_ev c with ERun r => r_shutdown r || r_late r | EExec _ => false end.
+(* ... already before the Run began *)
+Definition ctx_seen (c : ctx) : bool :=
   match k_ev c with ERun r => r_shutdown r | EExec _ => false end.
+(* Shutdown has begun: in this Run (up to the point where the request is
+   built) or in any earlier event. *)
+Definition began (c : ctx) (m : mon) : bool := m_shut m || ctx_shutdown c.
 Definition ctx_ready (c : ctx) : bool :=
   match k_ev c with ERun r => r_ready r | EExec _ => false end.
 Definition ctx_now (c : ctx) : Z :=
@@ -88,23 +98,24 @@ Definition is_failed (st : rstate) : bool :=
 
 Definition mon_next (c : ctx) (m : mon) (o : out) : mon :=
   match o with
-  | OReady => mkMon (m_live m) (m_cur m) (if ctx_ready c then false else m_owes m) (m_synced m) (ctx_ready c)
+  | OReady => mkMon (m_live m) (m_cur m) (if ctx_ready c then false else m_owes m) (m_synced m) (ctx_ready c) (m_shut m)
   | OTimer _ _ => m
   | OX e r =>
     match emitted e r with
-    | Some st => mkMon (m_live m) (add_em (m_cur m) st) (m_owes m) (m_synced m) (m_ready m)
+    | Some st => mkMon (m_live m) (add_em (m_cur m) st) (m_owes m) (m_synced m) (m_ready m) (m_shut m)
     | None => m
     end
-  | OExit id => mkMon (if optN_eqb (m_live m) (Some id) then None else m_live m) (m_cur m) (m_owes m) (m_synced m) (m_ready m)
+  | OExit id => mkMon (if optN_eqb (m_live m) (Some id) then None else m_live m) (m_cur m) (m_owes m) (m_synced m) (m_ready m) (m_shut m)
   | OCancel _ => m
-  | OStart id d _ => mkMon (Some id) (Some (mkCur id d [])) false (m_synced m) (m_ready m)
-  | OSync st _ _ => mkMon (m_live m) (m_cur m) (if is_failed st then true else m_owes m) true (m_ready m)
+  | OStart id d _ => mkMon (Some id) (Some (mkCur id d [])) false (m_synced m) (m_ready m) (m_shut m)
+  | OSync st _ _ => mkMon (m_live m) (m_cur m) (if is_failed st then true else m_owes m) true (m_ready m) (m_shut m)
   | ORet _ e =>
-    match e with
-    | ENone => if ctx_told_idle c && m_synced m
-               then mkMon (m_live m) None (m_owes m) (m_synced m) (m_ready m) else m
-    | _ => m
-    end
+    (* the Run is over: if shutdown began in it, it has begun for good *)
+    let cu := match e with
+              | ENone => if ctx_told_idle c && m_synced m then None else m_cur m
+              | _ => m_cur m
+              end in
+    mkMon (m_live m) cu (m_owes m) (m_synced m) (m_ready m) (began c m)
   end.
 
 (* ---- the five checks -------------------------------------------------------- *)
@@ -162,11 +173,18 @@ Definition chk_idle_after_failure : chk := fun c m o =>
   | _ => ""
   end%string.
 
-(* shutdown_never_solicits (and the RPC must still go through) *)
+(* shutdown_never_solicits: from the moment shutdown began every request asks
+   to be left idle - also the request of the Run during which the context got
+   cancelled (late cancellation: after the termination test at the top, before
+   the request was built), and every request after that, whatever the later
+   events say.  And the RPC must still go through: never on the cancelled
+   context. *)
 Definition chk_shutdown : chk := fun c m o =>
   match o with
   | OSync _ p live =>
-    if ctx_shutdown c && negb p then "solicits-work-during-shutdown"
+    if began c m && negb p
+    then (if ctx_seen c then "solicits-work-during-shutdown"
+          else "blocking-synchronize-after-shutdown-began")
     else if negb live then "synchronize-with-cancelled-context"
     else ""
   | _ => ""
@@ -176,7 +194,7 @@ Definition chk_shutdown : chk := fun c m o =>
 Definition chk_terminate : chk := fun c m o =>
   match o with
   | ORet true _ =>
-    if ctx_shutdown c
+    if began c m
     then match o_until (k_obs c) with
          | None => ""
          | Some u => if (u <? ctx_now c)%Z then "" else "terminates-while-scheduler-may-think-executing"
@@ -368,3 +386,12 @@ Fixpoint ochk_trace (b : obm) (tr : list item) : string :=
   end.
 
 Definition observer_ok (t0 : Z) (tr : list item) : bool := is_empty (ochk_trace (obm_init t0) tr).
+
+(* ---- safe shutdown, stated directly ------------------------------------------------------ *)
+
+(* Every SynchronizeRequest in these outputs asks to be left idle and went
+   out on a live context. *)
+Definition sync_idle (o : out) : bool :=
+  match o with OSync _ p live => p && live | _ => true end.
+Definition syncs_idle (outs : list out) : bool := forallb sync_idle outs.
+Definition all_syncs_idle (tr : list item) : bool := forallb (fun it => syncs_idle (i_outs it)) tr.
